@@ -121,13 +121,11 @@ def obligations(tier):
             add(op)
     if tier == "quick":
         # other kinds / states / calling contexts for the calls that do the real work
-        for op in ("ADD", "DEL", "ACTIVE"):
-            for kind in ("K_TIMER", "K_SIG"):
-                for st in (0, 1, 2): add(op, kind=kind, st=st)
-            add(op, st=0); add(op, st=2)
-        for op in ("ADD", "DEL", "DEL_BLOCK", "ACTIVE", "LOOPBREAK", "LOOP", "FINALIZE", "GETTERS", "NEW_FREE", "LOOPEXIT", "WATCH", "NOTIFIABLE", "DEFERRED"):
-            for ctx in (1, 2):
-                add(op, ctx=ctx, **({"what": 1} if op == "NEW_FREE" else {}))
+        for op in ("ADD", "DEL"):
+            for kind in ("K_TIMER", "K_SIG"): add(op, kind=kind, st=1)
+            add(op, st=0); add(op, kind="K_SIG", st=0); add(op, st=2)
+        for op in ("ADD", "DEL_BLOCK", "ACTIVE", "LOOP", "FINALIZE", "NOTIFIABLE"):
+            for ctx in (1, 2): add(op, ctx=ctx)
         for ctx in (1, 2): add("ONCE", ctx=ctx, what=1)
         add("DEL_BLOCK", kind="K_SIG", st=1, ctx=2)
     else:
